@@ -1016,6 +1016,29 @@ class DDLGen:
             self.globals_[g] = 'str'
         return f'CREATE GLOBAL {g} -> str;'
 
+    def c_constraint(self):
+        """user-defined abstract constraints (their names qualify the concrete constraints derived from them)"""
+        r = self.r
+        self.cons = getattr(self, 'cons', {})       # name -> set of types using it
+        k = f'k{r.randrange(2)}'
+        if k not in self.cons:
+            self.cons[k] = set()
+            self.expect('obj', k)
+            return f'CREATE ABSTRACT CONSTRAINT {k} {{ USING (true) }};'
+        if self.types and r.random() < 0.6:
+            t = self.tname(True)
+            if t in self.types:
+                self.cons[k].add(t)
+            return f'ALTER TYPE {t} {{ CREATE CONSTRAINT {k} ON (true); }};'
+        if not self.cons[k] or r.random() < self.wild:
+            if not self.cons[k]:
+                del self.cons[k]
+            self.expect('noobj', k)
+            return f'DROP ABSTRACT CONSTRAINT {k};'
+        t = r.choice(sorted(self.cons[k]))
+        self.cons[k].discard(t)
+        return f'ALTER TYPE {t} {{ DROP CONSTRAINT {k} ON (true); }};'
+
     def c_module(self):
         r = self.r
         if 'm1' in self.modules:
@@ -1052,14 +1075,16 @@ class DDLGen:
             return self.c_func()
         if x < 0.93:
             return self.c_alias()
-        if x < 0.97:
+        if x < 0.955:
             return self.c_global()
+        if x < 0.985:
+            return self.c_constraint()
         return self.c_module()
 
 
-TOKEN = re.compile(r'\b(TP|T[0-5]|p[0-39]|l[0-2]|lp0|S[0-2]|a[01]|f[01]|A[01]|g[01]|c0|ap0|n[1-3])\b')
+TOKEN = re.compile(r'\b(TP|T[0-5]|p[0-39]|l[0-2]|lp0|S[0-2]|a[01]|f[01]|A[01]|g[01]|k[01]|c0|ap0|n[1-3])\b')
 TOKENS = (['TP'] + [f'T{i}' for i in range(6)] + ['p0', 'p1', 'p2', 'p3', 'p9', 'l0', 'l1', 'l2', 'lp0']
-          + ['S0', 'S1', 'S2', 'a0', 'a1', 'f0', 'f1', 'A0', 'A1', 'g0', 'g1', 'c0', 'ap0', 'n1', 'n2', 'n3'])
+          + ['S0', 'S1', 'S2', 'a0', 'a1', 'f0', 'f1', 'A0', 'A1', 'g0', 'g1', 'k0', 'k1', 'c0', 'ap0', 'n1', 'n2', 'n3'])
 
 
 def bq(x):
@@ -1081,7 +1106,7 @@ def ident_map(rnd, style):
         used.add(x)
         return True
     groups = [['n1', 'n2', 'n3'], ['p0', 'p1', 'p2'], ['TP', 'T0', 'T1'], ['l0', 'l1'], ['a0', 'a1'],
-              ['f0', 'f1'], ['S0', 'S1'], ['p3', 'p9', 'lp0'], ['T2', 'T3'], ['A0', 'g0', 'c0', 'ap0']]
+              ['f0', 'f1'], ['S0', 'S1'], ['k0', 'k1'], ['p3', 'p9', 'lp0'], ['T2', 'T3'], ['A0', 'g0', 'c0', 'ap0']]
     for gi, grp in enumerate(groups):
         if gi > 0 and rnd.random() < 0.35:
             continue
